@@ -38,6 +38,8 @@ VARIABLES conf,       \* [useLogger: Logger (both locks) / bare OwnThreadHandler
                       \*         show that the exclusion properties are not vacuous),
                       \*  eager: (trace validation) a mutex whose owner has passed its last point inside the locked
                       \*         scope counts as available - the release itself is not an observable event,
+                      \*  rt: record which calls had returned when a call began (ghost for RealTimeOrder; off in the
+                      \*      configurations where it would only multiply states),
                       \*  safeEnv: the environment keeps asynchronous logging inside the life of the application
                       \*           object (moves only while it exists, stops before it is destroyed)]
           lm,         \* logger mutex (recursive): [owner, depth]
@@ -59,7 +61,9 @@ VARIABLES conf,       \* [useLogger: Logger (both locks) / bare OwnThreadHandler
           rd,         \* per thread: counter value it has read
           delivered,  \* sink deliveries: [m, by, n, async]
           accepted,   \* messages handed to the worker, in hand-off order
-          ghost       \* [crashed, cleared (messages accepted at the last rs.cleared), stops]
+          ghost       \* [crashed, cleared (messages accepted at the last rs.cleared), stops,
+                      \*  returned (messages whose logging call is back in the caller),
+                      \*  pre (per message: the messages whose call had returned when its own call began)]
 
 vars == <<conf, lm, hm, tptr, wptr, thr, wobj, queue, pending, app, hooked, pc, cur, todo, script, inPipe, ctr, rd,
           delivered, accepted, ghost>>
@@ -89,9 +93,10 @@ LAvail(t) == lm.owner \in {NoOne, t} \/ ~conf.locks \/ (conf.eager /\ lm.owner #
 CallBegin(t) ==
     /\ pc[t] = "idle" /\ todo[t] # <<>>
     /\ cur' = [cur EXCEPT ![t] = Head(todo[t])]
+    /\ ghost' = IF conf.rt THEN [ghost EXCEPT !.pre = Append(@, [m |-> Head(todo[t]), before |-> ghost.returned])] ELSE ghost
     /\ Goto(t, IF conf.useLogger THEN "pm.enter" ELSE "pm.locked")
     /\ UNCHANGED <<lm, hm, tptr, wptr, thr, wobj, queue, pending, app, hooked, todo, script, inPipe, ctr, rd,
-                   delivered, accepted, ghost>>
+                   delivered, accepted>>
 
 LockL(t) ==                      \* QMutexLocker locker(mutex())  - recursive
     /\ pc[t] = "pm.enter"
@@ -149,9 +154,10 @@ CallEnd(t) ==                    \* back in the caller
     /\ pc[t] = "ret"
     /\ todo' = [todo EXCEPT ![t] = Tail(@)]
     /\ cur' = [cur EXCEPT ![t] = NoMsg]
+    /\ ghost' = IF conf.rt THEN [ghost EXCEPT !.returned = @ \cup {cur[t]}] ELSE ghost
     /\ Goto(t, "idle")
     /\ UNCHANGED <<lm, hm, tptr, wptr, thr, wobj, queue, pending, app, hooked, script, inPipe, ctr, rd,
-                   delivered, accepted, ghost>>
+                   delivered, accepted>>
 
 \* Branch and Post as one step (what a trace shows at the point "oth.posting": the counter is already
 \* incremented and the event is about to be posted, all under the handler mutex)
@@ -391,7 +397,7 @@ AppDestroy(s) ==
 
 ---------------------------------------------------------------------------
 Init ==
-    /\ conf \in [useLogger : BOOLEAN, recheck : BOOLEAN, safeEnv : BOOLEAN, locks : BOOLEAN, eager : BOOLEAN]
+    /\ conf \in [useLogger : BOOLEAN, recheck : BOOLEAN, safeEnv : BOOLEAN, locks : BOOLEAN, eager : BOOLEAN, rt : BOOLEAN]
     /\ lm = [owner |-> NoOne, depth |-> 0] /\ hm = NoOne
     /\ tptr = FALSE /\ wptr = FALSE /\ thr = "none" /\ wobj = "none"
     /\ queue = <<>> /\ pending = 0 /\ app = "none" /\ hooked = FALSE
@@ -399,7 +405,7 @@ Init ==
     /\ cur = [t \in Threads |-> NoMsg]
     /\ inPipe = {} /\ ctr = 0 /\ rd = [t \in Threads |-> 0]
     /\ delivered = <<>> /\ accepted = <<>>
-    /\ ghost = [crashed |-> FALSE, cleared |-> {}, stops |-> 0]
+    /\ ghost = [crashed |-> FALSE, cleared |-> {}, stops |-> 0, returned |-> {}, pre |-> <<>>]
 
 ProducerStep(t) ==
     CallBegin(t) \/ LockL(t) \/ LockH(t) \/ Branch(t) \/ Post(t) \/ UnlockH(t) \/ UnlockL(t) \/ CallEnd(t)
@@ -452,6 +458,16 @@ AsyncOrder ==
         /\ LET k == CHOOSE j \in 1..Len(accepted) : accepted[j] = LastD.m
            IN  \A i \in 1..(Len(delivered) - 1) :
                    delivered[i].async => (CHOOSE j \in 1..Len(accepted) : accepted[j] = delivered[i].m) < k
+
+\* a log call that returned before another began is delivered first (stated for the latest delivery: everything that
+\* had returned when its call began, and that is delivered at all so far or was handed to the worker, came earlier)
+RealTimeOrder ==
+    delivered # <<>> =>
+        LET b == LastD.m
+            rec == SelectSeq(ghost.pre, LAMBDA r : r.m = b)
+            before == IF rec = <<>> THEN {} ELSE rec[Len(rec)].before
+        IN  \A a \in before : (a \in Set(accepted) \/ a \in DeliveredMsgs) =>
+                \E i \in 1..(Len(delivered) - 1) : delivered[i].m = a
 
 \* C04
 \* when resetOwnThread has cleared the thread, everything accepted so far has been delivered
